@@ -1,4 +1,4 @@
-HOOK_COMMITS = ["f09e006", "b01701e"]
+HOOK_COMMITS = ["f09e006", "b01701e", "f04332d"]
 
 _WIP = "check not landed yet in this revision of /verif (work in progress; see DESIGN.md section 11 for the plan)"
 NOT_APPLICABLE = {("C%02d" % i): _WIP for i in range(1, 21)}
@@ -91,9 +91,9 @@ META["C14"] = _m("proof", "DESIGN.md section 6, C14",
     "The theorems quantify over all lists and all later insertions / deletions; the harness knows from the hook dump where a deleted anchor used to be.",
     "Anchors re-created by redo (follow_redone) are not modelled.")
 META["C20"] = _m("proof", "DESIGN.md section 6, C20",
-    "Coq theorems: a quotation is the live part of the segment between its anchors, sees later insertions in order, hides deletions + dereference on every replica after every step against the hook dump + an observer on every quotation on every replica that must be called in every step that changes the ids the quotation shows",
+    "Coq theorems: a quotation is the live part of the segment between its anchors, sees later insertions in order, hides deletions; registration of units for a quotation (what drives observer notification) is sound in every reachable state and complete exactly while no unit of a non-empty range is deleted + dereference on every replica after every step against the hook dump + registered units (Store::linked_by) against the model of registration after every step + an observer on every quotation on every replica",
     "Found and repaired on the pinned tree: start anchor at a tombstone (fb007d9), quotation not materialized when it starts at the end of a block (71ba737), text quotations not sliced at their boundaries (b77dca2), links lost when a quoted block is split (19d2098), elements appended to an unbounded quotation not linked (21e026d).",
-    "Partial: link bookkeeping (linked_by) is not modelled, notification is decided on the implementation only. Known findings: quotations without a lower / upper bound and quotations of an empty range miss notifications (new elements join a quotation only through a registered neighbour).")
+    "Known finding (proved of the model: lk_complete_refuted_*, lk_empty_range_never_registers): a quotation shows elements that no registered neighbour can pass it on to (next to tombstones, empty range, open end behind a deleted element) and its observers are not notified of them. Partial: link inheritance on block split and links to map entries are compared on the implementation only.")
 META["C18"] = _m("proof", "DESIGN.md section 6, C18",
     "Coq: awareness as a per-client register (idempotent, order-insensitive on well-formed update sets for remote clients, clock monotone, lower clock never replaces, local state protected); handshake convergence at operation-set level (diff against any stale vector is complete; only the delivered set matters) + real Awareness/Protocol peers under seeded interleavings with concurrent edits and all permutations of awareness updates, model compared after every apply",
     "Order-insensitivity is a statement over all permutations and the handshake over all interleavings; both are proved for the model and exercised on the real peers.",
